@@ -1021,28 +1021,45 @@ class PDFDocument:
         visited: Set[int] = set()
 
         def lookup(d: Dict[str, Any]) -> Any:
-            if "Limits" in d:
-                (k1, k2) = list_value(d["Limits"])
-                if key < k1 or k2 < key:
-                    return None
-            if "Names" in d:
-                objs = list_value(d["Names"])
-                names = dict(
-                    cast(Iterator[Tuple[Union[str, bytes], Any]], choplist(2, objs)),
-                )
-                return names[key]
-            if "Kids" in d:
-                for c in list_value(d["Kids"]):
+            # The tree is walked with an explicit stack of the Kids still to
+            # try: it may be nested deeper than the recursion limit.
+            stack: List[Iterator[Any]] = []
+            while True:
+                v = None
+                descended = False
+                outside = False
+                if "Limits" in d:
+                    (k1, k2) = list_value(d["Limits"])
+                    outside = key < k1 or k2 < key
+                if outside:
+                    pass
+                elif "Names" in d:
+                    objs = list_value(d["Names"])
+                    names = dict(
+                        cast(
+                            Iterator[Tuple[Union[str, bytes], Any]], choplist(2, objs)
+                        ),
+                    )
+                    v = names[key]
+                elif "Kids" in d:
+                    stack.append(iter(list_value(d["Kids"])))
+                    descended = True
+                else:
+                    raise PDFKeyError((cat, key))
+                if not descended and (v or not stack):
+                    return v
+                # go on with the next kid of the innermost node that has any
+                for c in stack[-1]:
                     # a node that is reachable from itself is visited only once
                     objid = getattr(c, "objid", None)
                     if objid is not None:
                         if objid in visited:
                             continue
                         visited.add(objid)
-                    v = lookup(dict_value(c))
-                    if v:
-                        return v
-            raise PDFKeyError((cat, key))
+                    d = dict_value(c)
+                    break
+                else:
+                    raise PDFKeyError((cat, key))
 
         return lookup(d0)
 
